@@ -95,17 +95,22 @@ impl<'r> Samples<'r> {
     /// Returns an iterator over series.
     pub fn series(&'r self) -> impl Iterator<Item = io::Result<Series<'r>>> + 'r {
         let mut src = self.src;
+        // The block holds `format_count` series. Bytes after the last one are not a series: the
+        // record reader (`read_samples`) does not look at them either.
+        let mut n = self.format_count;
 
         iter::from_fn(move || {
-            if src.is_empty() {
+            if n == 0 {
                 None
             } else {
+                n -= 1;
+
                 let result = read_series(&mut src, self.sample_count);
 
                 // The position of the next series is unknown after an invalid one. Stop after the
-                // first error rather than returning one for each of the remaining bytes.
+                // first error rather than returning one for each of the remaining series.
                 if result.is_err() {
-                    src = &[];
+                    n = 0;
                 }
 
                 Some(result)
@@ -187,11 +192,27 @@ mod tests {
             0xf1, 0xf1, 0xf1, 0xf1, // invalid key
         ];
 
-        let samples = Samples::new(&src, 2, 1);
+        let samples = Samples::new(&src, 2, 2);
         let mut series = samples.series();
 
         assert!(matches!(series.next(), Some(Ok(_))));
         assert!(matches!(series.next(), Some(Err(_))));
+        assert!(series.next().is_none());
+    }
+
+    #[test]
+    fn test_series_with_bytes_after_the_last_series() {
+        let src = [
+            0x11, 0x01, // key = 1
+            0x11, // type = i8, len = 1
+            0x05, 0x08, // values = [5, 8]
+            0x11, 0x01, 0x11, 0x0d, 0x15, // not a series of this record: format_count = 1
+        ];
+
+        let samples = Samples::new(&src, 2, 1);
+        let mut series = samples.series();
+
+        assert!(matches!(series.next(), Some(Ok(_))));
         assert!(series.next().is_none());
     }
 }
